@@ -8,7 +8,8 @@
    FULL      C05_balancedb_correct, C05_balanced_released_once, C05_actions_balanced_on_every_exit,
              C05_runtime_fns_balanced, C05_concat_callers_balanced, C05_former_witnesses_balanced,
              C05_compile_ok + C05_program_balanced (the decidable fragment fprogram of Lower/CompileOk.v),
-             C05_program_balanced_bounded (bound = the enumerated family of 19866 skeletons)
+             C05_program_balanced_bounded (bound = the enumerated family of 36064 skeletons),
+             C05_derived_reference_needs_owner, C05_element_of_temporary_in_falls
    PARTIAL   C05_program_balanced_partial (all skeleton programs whose compiled actions pass the static
              discipline — decidable, evaluated on every generated program by the check); the unbounded
              cases of cexpr_ok / cstmt_ok outside the fragment (listed in Lower/CompileOk.v) are not proved
@@ -78,7 +79,7 @@ Proof. exact program_ok_balanced. Qed.
 Print Assumptions C05_program_balanced_partial.
 
 (* FULL for the fragment `fprogram` (decidable): expressions literal / variable / element read / unused temporaries
-   (Länge, gleich) / slice / Text concatenation with temporary or variable left operand / short-circuit `und`, `oder`;
+   (Länge, gleich) / slice / element of a temporary or a variable / Text concatenation with temporary or variable left operand / short-circuit `und`, `oder`;
    statements declaration, assignment to a variable and to an element/field (copy before free), expression statement
    (discarded result), block, `Wenn` with both arms, `Solange` and `Mache ... Solange` loops (condition temporaries in
    their own scope) with `Verlasse die Schleife` / `Fahre mit der Schleife fort` from inner scopes.  Every program of the
@@ -103,15 +104,17 @@ Example C05_program_balanced_nonvacuous :
                                                  (SBlock (SSeq (SAssign 0 (EVar 1)) SContinue))
                                                  (SBlock (SIf EPrim (SBlock SBreak) (SBlock SSkip))))
                                             (SAssign 0 (EVar 0))))))
-                           (SExpr (EPart 0 1)))) in
+                           (SSeq (SExpr (EPart 0 1)) (SDecl 2 (EConcat (EElem (EDerive (EVar 0) 4%N) 1) (EElem (EVar 0) 1)))))) in
   fprogram P = true /\ exists L, run_program 9 [true; true; true; true; true; false; true] P = Some L /\ L <> [] /\ balanced L.
 Proof.
   cbn zeta. split; [reflexivity|]. eexists. split; [vm_compute; reflexivity|]. split; [discriminate|].
   apply balancedb_correct. vm_compute. reflexivity.
 Qed.
 
-(* FULL for an explicitly bounded family (the bound is the enumeration `family`, 19866 skeleton programs: 11 non-primitive
-   expressions x 4 conditions x the ownership roles x every loop form x every exit from an inner scope — fallthrough,
+(* FULL for an explicitly bounded family (the bound is the enumeration `family`, 36064 skeleton programs: 14 non-primitive
+   expressions — among them an element of a TEMPORARY list (function result, list literal) alone and as either arm of
+   `falls` — x 5 conditions (one: und/oder over comparisons of such elements, also as loop condition) x the ownership
+   roles (incl. argument and return value) x every loop form x every exit from an inner scope — fallthrough,
    break, continue, return of a temporary / of a local —, in main and inside an inlined function; see CompileBounded.v):
    the code Own.compile emits for each of them passes the discipline, so every normally terminating run, for every
    oracle (control-flow path) and fuel, has a balanced ledger *)
@@ -121,7 +124,7 @@ Theorem C05_program_balanced_bounded :
 Proof. exact (fun P H => conj (family_ok P H) (family_balanced P H)). Qed.
 Print Assumptions C05_program_balanced_bounded.
 
-Example C05_family_size : N.of_nat (length family) = 19866%N.
+Example C05_family_size : N.of_nat (length family) = 36064%N.
 Proof. exact family_size. Qed.
 
 (* the programs that were unbalanced under the originally pinned code generator (self-assignment; Solange condition,
@@ -136,6 +139,32 @@ Proof.
   repeat (destruct HP as [HP|HP]; [subst P; congruence|]). destruct HP.
 Qed.
 Print Assumptions C05_former_witnesses_balanced.
+
+(* ---- references derived from a temporary owner (element / field of a temporary container) ----------------------- *)
+(* the discipline has no action that reads a place whose owner is not owned (any more): every deep copy out of a place
+   (declaration/assignment/argument copy, list-literal component, right operand of a concatenation, element assignment)
+   is rejected once the owner slot was released or claimed away.  A reference derived from a temporary must therefore
+   be copied before the scope of that temporary ends. *)
+Theorem C05_derived_reference_needs_owner :
+  forall K G p, mem (root p) (o_own G) = false ->
+  (forall d, own_check K (ICopy d p) G = None) /\
+  (forall d, own_check K (IAbsorbCopy d p) G = None) /\
+  (forall d a, own_check K (IConcat d a p) G = None) /\
+  (forall s k, own_check K (IAssignPartCopy s k p) G = None).
+Proof. exact read_of_unowned_rejected. Qed.
+Print Assumptions C05_derived_reference_needs_owner.
+
+(* `(f an der Stelle 2), falls c, ansonsten v`, `v, falls c, ansonsten (<list literal> an der Stelle 1)` and a Solange
+   condition comparing `(f an der Stelle 1)` (f returns a list: the indexed list is a temporary): BIN_INDEX copies the
+   element inside the arm / the condition scope while the list is owned, the program is accepted and balanced on every
+   path; the emission that hands a plain reference into the temporary list out of the arm (copy after the arm's scope
+   released the list) is rejected by the discipline *)
+Theorem C05_element_of_temporary_in_falls :
+  (forall fuel oracle L, run_program fuel oracle wit_elem_of_temp = Some L -> balanced L) /\
+  own_check ctx0 arm_copy_then_release (mkO [] []) = Some (Some (mkO [] [])) /\
+  own_check ctx0 arm_release_then_copy (mkO [] []) = None.
+Proof. exact (conj (fun fuel oracle L => program_ok_balanced wit_elem_of_temp fuel oracle L elem_of_temp_accepted) derived_reference_must_not_outlive_owner). Qed.
+Print Assumptions C05_element_of_temporary_in_falls.
 
 (* ---- runtime and generated functions ----------------------------------------------------------- *)
 (* each function transfers ownership as documented, for all argument values (state of /repo after c2054d3, 39a39c6) *)
